@@ -193,6 +193,11 @@ class VM:
             # (a tree of eval() calls, each a few instructions long)
             raise TimeLimitError("Execution timeout")
 
+        # Hoisted var declarations of the program: declared, not reassigned
+        for name in compiled.global_vars:
+            if name not in self.globals:
+                self.globals[name] = UNDEFINED
+
         # Create initial call frame
         frame = CallFrame(
             func=compiled,
